@@ -34,22 +34,22 @@ import (
 var inlNameRE = regexp.MustCompile(`__inl([0-9x]+)_`)
 
 type inlineHelper struct {
-	obj   types.Object // *types.Func, or the *types.Var a local closure is bound to
-	name  string       // display name
-	sig   *types.Signature
-	recv  *ast.FieldList
-	ftype *ast.FuncType
-	body  *ast.BlockStmt
-	lit   *ast.FuncLit // non-nil for a local closure `name := func(…) {…}`
-	from  token.Pos    // extent of the declaration (blanked when every use was expanded)
-	to    token.Pos
-	pkg   *packages.Package
-	file  *ast.File
-	waits bool // its body still calls another helper: expanded in a later round
-	keep  bool // a combinator (possibly pinned, possibly of another package): its declaration always stays
+	obj     types.Object // *types.Func, or the *types.Var a local closure is bound to
+	name    string       // display name
+	sig     *types.Signature
+	recv    *ast.FieldList
+	ftype   *ast.FuncType
+	body    *ast.BlockStmt
+	lit     *ast.FuncLit // non-nil for a local closure `name := func(…) {…}`
+	from    token.Pos    // extent of the declaration (blanked when every use was expanded)
+	to      token.Pos
+	pkg     *packages.Package
+	file    *ast.File
+	waits   bool // its body still calls another helper: expanded in a later round
+	keep    bool // a combinator (possibly pinned, possibly of another package): its declaration always stays
 	foreign bool // may also be expanded at call sites in other packages (see exportedOnly)
-	uses  int // references seen in the package
-	done  int // references expanded
+	uses    int  // references seen in the package
+	done    int  // references expanded
 }
 
 type splice struct {
@@ -584,21 +584,21 @@ func simpleDefer(body *ast.BlockStmt, d *ast.DeferStmt) bool {
 }
 
 type inliner struct {
-	p       *packages.Package
-	f       *ast.File
-	tf      *token.File
-	src     []byte
-	helpers map[types.Object]*inlineHelper
-	caller  *types.Func
-	counter *int
-	exprDone map[*ast.CallExpr]bool
-	qual     types.Qualifier
-	readFile func(string) ([]byte, error)
+	p          *packages.Package
+	f          *ast.File
+	tf         *token.File
+	src        []byte
+	helpers    map[types.Object]*inlineHelper
+	caller     *types.Func
+	counter    *int
+	exprDone   map[*ast.CallExpr]bool
+	qual       types.Qualifier
+	readFile   func(string) ([]byte, error)
 	importable func(from, to *types.Package) bool
 	badImport  bool
-	out     []splice
-	imports []string
-	log     []string
+	out        []splice
+	imports    []string
+	log        []string
 }
 
 func (ix *inliner) text(from, to token.Pos) string {
